@@ -234,11 +234,24 @@ pub fn build_cmd(c: &Value) -> Command {
     if on("no_binary_name") { cmd = cmd.no_binary_name(true); }
     if on("multicall") { cmd = cmd.multicall(true); }
     for a in c["args"].as_array().unwrap() {
-        cmd = cmd.arg(build_arg(a));
+        let mut x = build_arg(a);
+        // membership declared on the argument (Arg::groups) rather than on the group
+        let via: Vec<String> = c["groups"].as_array().unwrap().iter()
+            .filter(|g| g["via_arg"].as_array().map(|v| v.iter().any(|m| m == &a["id"])).unwrap_or(false))
+            .map(|g| g["id"].as_str().unwrap().to_string()).collect();
+        if !via.is_empty() {
+            x = x.groups(via);
+        }
+        cmd = cmd.arg(x);
     }
     for g in c["groups"].as_array().unwrap() {
+        if g["implicit"] == true {
+            continue;
+        }
+        let via: Vec<String> = strs(&g["via_arg"]);
+        let direct: Vec<String> = strs(&g["args"]).into_iter().filter(|m| !via.contains(m)).collect();
         let mut grp = ArgGroup::new(g["id"].as_str().unwrap().to_string())
-            .args(strs(&g["args"]))
+            .args(direct)
             .required(g["required"].as_bool().unwrap())
             .multiple(g["multiple"].as_bool().unwrap());
         let r = strs(&g["requires"]);
